@@ -1,8 +1,9 @@
 ---------------------------- MODULE TlvModelScan ----------------------------
 (* The scan loop of TlvModel.parse as a state machine: variables (c, st) where c is the case
    being decoded (any record from which SchemaOfCase / IcOfCase / InputOfCase derive the schema,
-   the ignore_critical flag and the input elements) and st = (pos, fpos, want, key, out, taken, status, why).  One action per branch of
-   the loop, so that TLC's coverage and state graph have one edge per case:
+   the ignore_critical flag and the input elements) and
+   st = (pos, fpos, want, key, out, taken, status, why).  One action per branch of the loop, so
+   that TLC's coverage and state graph have one edge per case:
      FieldFound / SkippedFound (skipped fields processed) / RepeatedStays / MapKey / MapValue
      (map reads its value element) / IgnoredNonCritical / IgnoredCriticalByFlag / IgnoredInMap /
      RejectCritical (unknown, repeated or out-of-order critical) / Overrun (element overruns its
@@ -16,7 +17,9 @@ CONSTANTS SchemaOfCase(_), IcOfCase(_), InputOfCase(_)
 VARIABLES c, st
 vars == <<c, st>>
 
-Take(b) == LET n == ScanStep(SchemaOfCase(c), IcOfCase(c), InputOfCase(c), st) IN n.branch = b /\ st' = n.st
+\* Classify (cheap) first, so that the full step is evaluated only by the few actions it can end in
+Take(b) == /\ b \in BranchesOf(Classify(SchemaOfCase(c), IcOfCase(c), InputOfCase(c), st).cls)
+           /\ LET n == ScanStep(SchemaOfCase(c), IcOfCase(c), InputOfCase(c), st) IN n.branch = b /\ st' = n.st
 
 FieldFound            == /\ st.status = "run"
                          /\ Take("FieldFound")
@@ -75,6 +78,7 @@ AgreesWithRunScan == Terminal => LET r == RunScan(SchemaOfCase(c), IcOfCase(c), 
                                   r.status = st.status /\ r.out = st.out /\ r.taken = st.taken /\ r.why = st.why
 \* termination in a number of steps proportional to the input: one element per step
 OneElementPerStep == [][st'.status # "run" \/ st'.pos = st.pos + 1]_vars
-PosBound == st.pos <= Len(InputOfCase(c)) + 1 /\ (st.status = "accept" => st.pos = Len(InputOfCase(c)) + 1)
+PosBound == /\ st.pos <= Len(InputOfCase(c)) + 1
+            /\ (st.status = "accept" => st.pos = Len(InputOfCase(c)) + 1)
 FposMonotone == [][st'.fpos >= st.fpos]_vars
 =============================================================================
